@@ -130,6 +130,110 @@ example : verifierSum (F := ℤ) (G := ℤ) [2, 3, 5, 7] [1, 4, 9, 16]
     [(1, 1), (-1, -1)] (ipaProve [1, 2, 3, 4] [2, 3, 5, 7] [1, 4, 9, 16] 6 [(1, 1), (-1, -1)]) = 0 := by
   decide
 
+
+/-- The value `ipa_verify` compares with the identity, split into its four parts: the `L/R`
+terms, the two folded-base terms and the batched claim. -/
+private theorem verifierSum_split (bases1 bases2 : List G) (res1 res2 : G) (r : F) (us : List (F × F))
+    (pf : IpaProof F G) (hl : pf.lrs.length = us.length) (h1 : bases1.length = 2 ^ us.length)
+    (h2 : bases2.length = 2 ^ us.length) :
+    verifierSum bases1 bases2 res1 res2 r us pf =
+      innerProduct (us.flatMap (fun u => [u.1 * u.1, u.2 * u.2])) (pf.lrs.flatMap (fun lr => [lr.1, lr.2])) +
+        (innerProduct (ipaScalars pf.s us) bases1 + (innerProduct ((ipaScalars pf.s us).map (· * r)) bases2 +
+          (res1 + r • res2))) := by
+  simp only [verifierSum, verifierMsmScalars, verifierMsmBases]
+  have hlen : (ipaScalars pf.s us).length = 2 ^ us.length := (ipa_scalars_index pf.s us).1
+  rw [List.append_assoc, List.append_assoc, List.append_assoc, List.append_assoc,
+    innerProduct_append _ _ _ _ (by rw [length_flatMap_pair, length_flatMap_pair, hl]),
+    innerProduct_append _ _ _ _ (by rw [hlen, h1]),
+    innerProduct_append _ _ _ _ (by rw [List.length_map, hlen, h2])]
+  simp [innerProduct_cons, innerProduct_nil_left]
+
+/-- Binding of the first claimed value at fixed challenges: with the same bases, proof and
+challenges, `ipa_verify` accepts at most one `res1`. (Altering the claim also changes the
+Fiat–Shamir challenges in the real protocol; that a fresh challenge tuple does not make the
+altered claim the accepted one is the random-oracle/discrete-log part, which is assumed.) -/
+theorem ipa_claim1_unique (bases1 bases2 : List G) (res1 res1' res2 : G) (r : F) (us : List (F × F))
+    (pf : IpaProof F G) (hl : pf.lrs.length = us.length) (h1 : bases1.length = 2 ^ us.length)
+    (h2 : bases2.length = 2 ^ us.length)
+    (ha : verifierSum bases1 bases2 res1 res2 r us pf = 0)
+    (hb : verifierSum bases1 bases2 res1' res2 r us pf = 0) : res1 = res1' := by
+  rw [verifierSum_split _ _ _ _ _ _ _ hl h1 h2] at ha hb
+  have := ha.trans hb.symm
+  simpa using this
+
+/-- Binding of the second claimed value (the commitment `σ` to the scalars, in the aggregator)
+at fixed challenges, for an invertible batching challenge `r`. -/
+theorem ipa_claim2_unique (bases1 bases2 : List G) (res1 res2 res2' : G) (r ri : F) (hr : ri * r = 1)
+    (us : List (F × F)) (pf : IpaProof F G) (hl : pf.lrs.length = us.length)
+    (h1 : bases1.length = 2 ^ us.length) (h2 : bases2.length = 2 ^ us.length)
+    (ha : verifierSum bases1 bases2 res1 res2 r us pf = 0)
+    (hb : verifierSum bases1 bases2 res1 res2' r us pf = 0) : res2 = res2' := by
+  rw [verifierSum_split _ _ _ _ _ _ _ hl h1 h2] at ha hb
+  have h := ha.trans hb.symm
+  have h' : r • res2 = r • res2' := by simpa using h
+  have := congrArg (fun x => ri • x) h'
+  simpa [smul_smul, hr] using this
+
+/-- Non-vacuity of the two uniqueness statements: an accepted instance exists (`ipa_complete`),
+and changing `res1` by one makes the sum non-zero. -/
+example : verifierSum (F := ℤ) (G := ℤ) [2, 3] [1, 4] (innerProduct [1, 2] [2, 3] + 1)
+    (innerProduct [1, 2] [1, 4]) 6 [(1, 1)] (ipaProve [1, 2] [2, 3] [1, 4] 6 [(1, 1)]) ≠ 0 := by
+  decide
+
+/-- Binding of the final scalar at fixed challenges: two proofs that differ only in the last
+scalar and are both accepted satisfy `(s − s') • B = 0`, where `B = <coeffs, bases1 + r·bases2>`
+is the fully folded base. -/
+theorem ipa_final_scalar_unique (bases1 bases2 : List G) (res1 res2 : G) (r : F) (us : List (F × F))
+    (lrs : List (G × G)) (s s' : F) (hl : lrs.length = us.length) (h1 : bases1.length = 2 ^ us.length)
+    (h2 : bases2.length = 2 ^ us.length)
+    (ha : verifierSum bases1 bases2 res1 res2 r us { lrs := lrs, s := s } = 0)
+    (hb : verifierSum bases1 bases2 res1 res2 r us { lrs := lrs, s := s' } = 0) :
+    (s - s') • innerProduct (coeffs us) (fold (1 : F) bases1 r bases2) = 0 := by
+  rw [verifierSum_split _ _ _ _ _ _ _ hl h1 h2] at ha hb
+  simp only at ha hb
+  rw [← add_assoc (innerProduct (ipaScalars _ us) bases1), innerProduct_batch r _ _ _ (by rw [h1, h2]),
+    ipaScalars_eq_coeffs, innerProduct_map_mul_left] at ha hb
+  have h := ha.trans hb.symm
+  have h' : (-s) • innerProduct (coeffs us) (fold (1 : F) bases1 r bases2) =
+      (-s') • innerProduct (coeffs us) (fold (1 : F) bases1 r bases2) := by
+    have := add_left_cancel h
+    exact add_right_cancel this
+  rw [sub_smul]
+  simp only [neg_smul, neg_inj] at h'
+  rw [h', sub_self]
+
+/-- Prover and verifier of the argument perform the same sequence of transcript operations
+(absorb all bases and both claims, squeeze `r`, then per round two group elements and a squeeze,
+then the final scalar), for every length: they derive the same challenges. -/
+theorem ipa_schedule_agree (len : Nat) : proverSchedule len = verifierScheduleIpa len := by
+  unfold proverSchedule verifierScheduleIpa
+  congr 2
+  generalize rounds len = k
+  induction k with
+  | zero => simp
+  | succ k ih => rw [List.range_succ, List.flatMap_append, ih, List.replicate_succ']; simp
+
+/-- Size of an IPA proof: `k` pairs of group elements and one scalar, `k = log₂ len`. -/
+theorem ipa_proof_elements (len : Nat) :
+    ((proverSchedule len).filter (fun e => e = .eG)).length = 2 * rounds len ∧
+      ((proverSchedule len).filter (fun e => e = .eF)).length = 1 := by
+  unfold proverSchedule
+  generalize rounds len = k
+  have h : ∀ k, ((List.range k).flatMap (fun _ => [IpaEv.eG, .eG, .sq])).filter (fun e => e = .eG) =
+      List.replicate (2 * k) .eG ∧
+      ((List.range k).flatMap (fun _ => [IpaEv.eG, .eG, .sq])).filter (fun e => e = .eF) = [] := by
+    intro k
+    induction k with
+    | zero => simp
+    | succ k ih =>
+      rw [List.range_succ, List.flatMap_append, List.filter_append, List.filter_append, ih.1, ih.2]
+      refine ⟨?_, by simp⟩
+      rw [Nat.mul_succ, List.replicate_add]; simp
+  simp only [List.filter_append, List.length_append, h k, List.length_replicate]
+  simp
+
+example : rounds 64 = 6 ∧ rounds 1 = 0 := by decide
+
 end Ipa
 
 end MidnightZK.C20
